@@ -1,13 +1,16 @@
 #!/bin/bash
 # MANIFEST.setup_cmd: warm the Go build cache for the harness (normal and race builds). Offline.
-set -e
 cd "$(dirname "$0")"
 export GOFLAGS=-mod=mod GOPROXY=off
 unset GOTOOLCHAIN GOSUMDB 2>/dev/null || true
 mkdir -p bin evidence replays
-(cd harness && go build -tags verif ./... )
+rc=0
+for g in $(awk '!/^#/ && NF {print $2}' harness/groups.txt | sort -u); do
+  (cd harness && go build -tags verif -o /dev/null ./cmd/vcheck-$g) || { echo "setup: group $g does not build"; rc=1; }
+done
 # race-detector builds (groups.txt third column)
 for g in $(awk '$3=="-race" {print $2}' harness/groups.txt | sort -u); do
-  (cd harness && go build -race -tags verif -o /dev/null ./cmd/vcheck-$g)
+  (cd harness && go build -race -tags verif -o /dev/null ./cmd/vcheck-$g) || { echo "setup: race build of group $g failed"; rc=1; }
 done
-echo "setup ok"
+[ $rc -eq 0 ] && echo "setup ok"
+exit $rc
